@@ -159,14 +159,18 @@ func (v *Verifier) markCallWrites(ms *loopModSet, call *ast.CallExpr) {
 			switch b.Name() {
 			case "copy", "clear":
 				v.markBaseWrite(ms, call.Args[0])
+			case "new":
+				v.markAlloc(ms, v.typeOf(call.Args[0]))
+			case "make":
+				v.markAlloc(ms, v.typeOf(call))
 			case "append":
 				v.markBaseWrite(ms, call.Args[0])
+				v.markAlloc(ms, v.typeOf(call))
 			case "delete":
 				if mt, ok := v.typeOf(call.Args[0]).Underlying().(*types.Map); ok {
 					tag := sortTag(v.sortOf(mt.Key())) + "_" + sortTag(v.sortOf(mt.Elem()))
 					ms.heapKind["Mh_"+tag] = true
 				}
-			case "new", "make":
 			}
 			return
 		}
@@ -188,6 +192,17 @@ func (v *Verifier) markCallWrites(ms *loopModSet, call *ast.CallExpr) {
 		return
 	}
 	pkgPath, key := funcKey(fn)
+	if (pkgPath == "slices" && (key == "Concat" || key == "Clone")) || (pkgPath == "bytes" && key == "Clone") {
+		v.markAlloc(ms, v.typeOf(call))
+		return
+	}
+	if pkgPath == "slices" && key == "Delete" {
+		v.markBaseWrite(ms, call.Args[0])
+		return
+	}
+	if pkgPath == "slices" && (key == "IndexFunc" || key == "ContainsFunc") {
+		return
+	}
 	fc := v.eng.contracts[pkgPath+"#"+key]
 	if fc == nil || fc.Flags["inline"] {
 		decl, _ := v.eng.declOf(fn)
